@@ -194,9 +194,9 @@ func (pf *pfunc) callKills(ci ssa.CallInstruction, cl string, alloc *ssa.Alloc) 
 	if b, ok := cm.Value.(*ssa.Builtin); ok {
 		switch b.Name() {
 		case "copy", "append":
-			return strings.HasPrefix(cl, "E:")
+			return strings.HasPrefix(cl, "E:") || cl == "*"
 		case "delete":
-			return cl == "M"
+			return cl == "M" || cl == "*"
 		}
 		return false
 	}
@@ -241,6 +241,12 @@ func extContractFor(callee *ssa.Function) (extContract, bool) {
 }
 
 func (pf *pfunc) summaryKills(sum *OSummary, cl string) bool {
+	// the write summary lists every write to memory the caller can see (reachable from arguments,
+	// receiver or globals); a callee without any - it only fills objects it allocated itself, like
+	// Tx.Clone - changes nothing a caller's load could observe
+	if len(sum.Writes) == 0 {
+		return false
+	}
 	switch {
 	case strings.HasPrefix(cl, "F:"):
 		// F:pkg.Type.field  vs FieldsStored "Type.field" / "Type.*"
@@ -334,6 +340,9 @@ func (pf *pfunc) killedBetween(a, b ppos, cl string, alloc *ssa.Alloc) bool {
 		switch x := ins.(type) {
 		case *ssa.Store:
 			k := pf.classOfAddr(x.Addr)
+			if cl == "*" {
+				return !strings.HasPrefix(k, "A:") // any store that is not to a local variable
+			}
 			if k == cl {
 				return true
 			}
@@ -349,7 +358,7 @@ func (pf *pfunc) killedBetween(a, b ppos, cl string, alloc *ssa.Alloc) bool {
 			}
 			return false
 		case *ssa.MapUpdate:
-			return cl == "M"
+			return cl == "M" || cl == "*"
 		case ssa.CallInstruction:
 			return pf.callKills(x, cl, alloc)
 		}
@@ -584,9 +593,40 @@ func (pf *pfunc) numberAt(v ssa.Value, at ppos, subst map[ssa.Value]*vn) *vn {
 				return r
 			}
 		}
-		n := pf.intern(&vn{key: pf.uniq("call:" + calleeLabel(cm)), op: "call", typ: x.Type(), name: calleeLabel(cm), at: at})
+		// a module function that writes nothing and allocates nothing returns the same value for the same
+		// arguments as long as no memory it could read was written in between: the earlier call's number
+		var argv []*vn
 		for _, a := range cm.Args {
-			n.args = append(n.args, g(a))
+			argv = append(argv, g(a))
+		}
+		pureKey := ""
+		if sc := cm.StaticCallee(); sc != nil && subst == nil && inScope(pkgPathOf(sc)) && pf.P.pureReader(sc) {
+			pureKey = "pcall:" + funcName(sc) + "("
+			for _, a := range argv {
+				pureKey += a.key + ","
+			}
+			pureKey += ")"
+			var best *loadEvent
+			for _, ev := range pf.loads[pureKey] {
+				if ev.at == at {
+					return ev.v
+				}
+				if !pf.posDominates(ev.at, at) {
+					continue
+				}
+				if best == nil || pf.posDominates(best.at, ev.at) {
+					best = ev
+				}
+			}
+			if best != nil && !pf.killedBetween(best.at, at, "*", nil) {
+				pf.loads[pureKey] = append(pf.loads[pureKey], &loadEvent{addrKey: pureKey, at: at, v: best.v, class: "*"})
+				return best.v
+			}
+		}
+		n := pf.intern(&vn{key: pf.uniq("call:" + calleeLabel(cm)), op: "call", typ: x.Type(), name: calleeLabel(cm), at: at})
+		n.args = append(n.args, argv...)
+		if pureKey != "" {
+			pf.loads[pureKey] = append(pf.loads[pureKey], &loadEvent{addrKey: pureKey, at: at, v: n, class: "*"})
 		}
 		return n
 	case *ssa.MakeSlice:
